@@ -1196,4 +1196,69 @@ example : ownTagsT wT wVar "tags.1".toList = [⟨"min".toList, ["tags.1".toList]
 example : ownTagsT wT wVar "tags".toList = [] := by decide
 example : ownTagsT wT wVar "Skip".toList = [] := by decide
 
+/-! ## 9. `Validator.Validate`: custom validator, `WithRunAll`, strategy selection -/
+
+/-- a custom validator that returns an error ends the call: nothing else runs, its errors are cut and sorted -/
+theorem custom_validator_first (errs : List FieldErr) (runAll : Bool) (st : Strat) (a : Applic) (r : StratRes) (o : Opts) :
+    validateTop (some errs) runAll st a r o = coerce errs o := rfl
+
+/-- the documented priority of `StrategyAuto`: interface, then tags, then JSON Schema; tags when nothing applies -/
+theorem auto_priority (a : Applic) :
+    (a.iface = true → determineStrategy a = .iface) ∧
+    (a.iface = false → a.tags = true → determineStrategy a = .tags) ∧
+    (a.iface = false → a.tags = false → a.schema = true → determineStrategy a = .schema) ∧
+    (a.iface = false → a.tags = false → a.schema = false → determineStrategy a = .tags) := by
+  obtain ⟨i, t, sc⟩ := a
+  cases i <;> cases t <;> cases sc <;> simp [determineStrategy]
+
+/-- an explicitly chosen strategy is run whether or not `isApplicable` would admit it; `StrategyAuto` runs the
+    determined one -/
+theorem strategy_dispatch (runAll : Bool) (st : Strat) (a : Applic) (r : StratRes) (o : Opts) (hr : runAll = false) :
+    validateTop none runAll st a r o =
+      (match st with
+       | .auto => byStrategy (determineStrategy a) r
+       | s => byStrategy s r) := by
+  subst hr
+  cases st <;> simp [validateTop]
+
+/-- `WithRunAll` runs exactly the applicable strategies, interface first, then tags, then schema -/
+theorem runall_parts (st : Strat) (a : Applic) (r : StratRes) (o : Opts) :
+    validateTop none true st a r o = validateAll (applicableParts a r) o ∧
+    (a = ⟨true, true, false⟩ → applicableParts a r = [r.iface, r.tags]) := by
+  refine ⟨rfl, ?_⟩
+  rintro rfl
+  rfl
+
+/-- whatever the configuration, the result of `Validate` is capped, provided every strategy caps its own result
+    (which `errors_capped`, `full_capped`, `interface_capped` establish for tags and interface) -/
+theorem top_capped (custom : Option (List FieldErr)) (runAll : Bool) (st : Strat) (a : Applic) (r : StratRes) (o : Opts)
+    (hm : o.maxErrors > 0)
+    (hi : (fieldsOf r.iface).length ≤ o.maxErrors) (ht : (fieldsOf r.tags).length ≤ o.maxErrors)
+    (hs : (fieldsOf r.schema).length ≤ o.maxErrors) :
+    (fieldsOf (validateTop custom runAll st a r o)).length ≤ o.maxErrors := by
+  unfold validateTop
+  cases custom with
+  | some errs =>
+    simp only
+    rw [(coerce_fields errs o).length_eq]
+    by_cases h : o.maxErrors > 0 ∧ errs.length > o.maxErrors
+    · rw [if_pos h]; exact List.length_take_le _ _
+    · rw [if_neg h]
+      have : ¬ errs.length > o.maxErrors := fun h' => h ⟨hm, h'⟩
+      omega
+  | none =>
+    simp only
+    cases runAll with
+    | true => simpa using runall_capped _ o hm
+    | false =>
+      simp only [Bool.false_eq_true, if_false]
+      split <;> (cases determineStrategy a <;> cases st <;> simp_all [byStrategy])
+
+-- non-vacuity: a type with a `Validate()` method and tags: Auto takes the interface, run-all takes both in order
+example : determineStrategy ⟨true, true, false⟩ = .iface := by decide
+example (i t : Option Result) (o : Opts) :
+    validateTop none false .auto ⟨true, true, false⟩ ⟨i, t, none⟩ o = i := rfl
+example (i t : Option Result) (o : Opts) :
+    validateTop none false .tags ⟨true, true, false⟩ ⟨i, t, none⟩ o = t := rfl
+
 end Rivaas.C05
